@@ -3,7 +3,8 @@
    Model: Store/Model.v (SimpleMemory, Memory, Graph layer), Store/Iter.v (open
    iterators).  Specification: the quad set of Base/Quads.v. *)
 From RV Require Import Store.Model Store.IndexProofs Store.SimpleProofs Store.MemProofs Store.GraphProofs
-                       Store.Iter Store.IterProofs.
+                       Store.Iter Store.IterProofs Store.Reads Store.ReadsProofs
+                       Store.StoreLevel Store.StoreLevelProofs.
 
 (* ------------------------------------------------------------------ *)
 (* SimpleMemory                                                        *)
@@ -253,3 +254,103 @@ Example C01_f10_witness_passes :
   ispec_ok f10_witness (imodel_obs f10_witness) = true
   /\ last (imodel_obs f10_witness) no_obs = (0, false, [], 1)%N.
 Proof. exact f10_witness_passes. Qed.
+
+(* ------------------------------------------------------------------ *)
+(* The derived read API (Store/Reads.v): functions of the SET of triples *)
+
+(* THE TIE for the reads suite: after any well-formed history, what the checker
+   demands of subjects/predicates/objects/subject_predicates/subject_objects/
+   predicate_objects (unique False/True), value (any True/False) and
+   triples_choices on every graph in play is satisfied by the model *)
+Theorem C01_reads_spec_ok_model : forall c, rwfb c = true -> rspec_ok c (rmodel_obs c) = true.
+Proof. exact rspec_ok_model. Qed.
+Print Assumptions C01_reads_spec_ok_model.
+
+(* the six generators are `uniq eqb u (map f (g_triples w g p))` for a projection f
+   (Reads.v: g_subjects ... g_predicate_objects).  unique=False: one projection per
+   matching triple of the graph's set - duplicates exactly when several matching
+   triples have the same projection; unique=True: every such projection once. *)
+Theorem C01_generators_exact : forall (A : Type) (eqb : A -> A -> bool),
+  (forall x y, reflect (x = y) (eqb x y)) ->
+  forall (f : triple -> A) c w S g p,
+    Rel c w S ->
+    let E := sp_content S (scid c g) in
+    Permutation.Permutation (uniq eqb false (map f (g_triples w g p))) (map f (sel E p))
+    /\ NoDup (uniq eqb true (map f (g_triples w g p)))
+    /\ forall x, In x (uniq eqb true (map f (g_triples w g p))) <->
+                 exists t, In t E /\ matches p t = true /\ f t = x.
+Proof. exact gen_exact. Qed.
+Print Assumptions C01_generators_exact.
+
+(* value(): with any=True some matching term, None iff there is none (WHICH term is
+   the first in dict order, not a function of the set); with any=False a function of
+   the set: None / the only term / UniquenessError; fewer than two bound positions: None *)
+Theorem C01_value_exact : forall c w S g q any,
+  Rel c w S -> value_ok_pat (sp_content S (scid c g)) q any (g_value w g q any) = true.
+Proof. exact value_model. Qed.
+Print Assumptions C01_value_exact.
+
+Theorem C01_value_ok_reading : forall vs any v,
+  value_ok vs any v = true ->
+  if any then (fst v = 0%N /\ vs = []) \/ (fst v = 1%N /\ In (snd v) vs)
+  else match vs with
+       | [] => fst v = 0%N
+       | [y] => fst v = 1%N /\ snd v = y
+       | _ => fst v = 2%N
+       end.
+Proof. exact value_ok_reading. Qed.
+Print Assumptions C01_value_ok_reading.
+
+(* triples_choices with a list in one slot: the matching triples once per element of
+   the list (a repeated element repeats them), an empty list is a wildcard *)
+Theorem C01_triples_choices_exact : forall c w S g p sl L,
+  Rel c w S ->
+  Permutation.Permutation (g_choices w g p sl L) (choices_set (sp_content S (scid c g)) p sl L).
+Proof. exact choices_exact. Qed.
+Print Assumptions C01_triples_choices_exact.
+
+Theorem C01_ms_eqb_reading : forall (A : Type) (eqb : A -> A -> bool) a b,
+  ms_eqb eqb a b = true -> length a = length b /\ forall x, In x a -> cnt eqb x a = cnt eqb x b.
+Proof. exact @ms_eqb_reading. Qed.
+Print Assumptions C01_ms_eqb_reading.
+
+(* ------------------------------------------------------------------ *)
+(* The stores driven directly (Store/StoreLevel.v): context=None, contexts(),
+   add_graph, remove_graph; SimpleMemory ignoring every context          *)
+
+(* THE TIE for the store-level suite: after every operation, for every context key
+   (None = the store-wide union, or a graph): triples(all), __len__ and triples for
+   the 8 shapes are exact w.r.t. the quad set; contexts() is the set of graphs added
+   to / add_graph'ed since their last remove_graph; contexts(t) the graphs holding t *)
+Theorem C01_store_spec_ok_model : forall c, tspec_ok c (tmodel_obs c) = true.
+Proof. exact tspec_ok_model. Qed.
+Print Assumptions C01_store_spec_ok_model.
+
+(* Memory.triples(pattern, context) for a graph or None, 8 shapes *)
+Theorem C01_mem_triples_any_context : forall m k p,
+  MemInv m ->
+  NoDup (mem_triples_k m k p) /\
+  forall t, In t (mem_triples_k m k p) <-> matches p t = true /\ mem_holds_k m k t = true.
+Proof. exact mem_triples_k_exact. Qed.
+Print Assumptions C01_mem_triples_any_context.
+
+(* context=None is the union of the graphs *)
+Theorem C01_mem_union_view : forall m t,
+  MemInv m -> (mem_holds_k m None t = true <-> exists c, mem_holds m c t = true).
+Proof. intros m t Hi. rewrite holds_k_none by auto. now apply leaf_some_graph. Qed.
+Print Assumptions C01_mem_union_view.
+
+(* Memory.remove(pattern, context=None): EVERY graph (and the union) loses exactly the
+   matching triples; the set of known graphs is unchanged *)
+Theorem C01_mem_remove_noctx : forall m p,
+  MemInv m ->
+  MemInv (mem_remove_none m p) /\ m_all (mem_remove_none m p) = m_all m /\
+  forall k t, mem_holds_k (mem_remove_none m p) k t = mem_holds_k m k t && negb (matches p t).
+Proof. exact mem_remove_none_ok. Qed.
+Print Assumptions C01_mem_remove_noctx.
+
+(* one store-level operation of either store class refines one step of the specification *)
+Theorem C01_store_step : forall st simple s o,
+  TRel st simple s -> TRel (t_step st o) simple (tspec_step simple s o).
+Proof. exact TRel_step. Qed.
+Print Assumptions C01_store_step.
